@@ -62,6 +62,10 @@ type Action struct {
 	LongForm     string        `json:"longForm,omitempty"`
 	From         int64         `json:"anchorFrom,omitempty"` // signed anchoring window of the request (0, 0 = none)
 	Until        int64         `json:"anchorUntil,omitempty"`
+	// UnpubFault: the node's unpublished-operation store fails while this request is being taken in (a transient
+	// fault: the store works again for the next request). Whatever the node answers, only an accepted request may
+	// ever take effect.
+	UnpubFault bool `json:"unpublishedStoreFault,omitempty"`
 	// acceptedUnder (run time): genesis time of the protocol version in force when the request was accepted
 	acceptedUnder uint64
 }
@@ -470,6 +474,11 @@ func (p *pipeline) step(a *Action) (string, string) {
 func (p *pipeline) submit(a *Action) (string, string) {
 	var rr *document.ResolutionResult
 	var err error
+	if a.UnpubFault {
+		p.unpub.FailPut = func(int) error { return errors.New("injected unpublished-store failure") }
+		defer func() { p.unpub.FailPut = nil }()
+		p.feat["unpublished-store-fault"] = true
+	}
 	if p.c.ViaREST {
 		// through the REST operations endpoint (update handler -> document handler)
 		uh := restdoc.NewUpdateHandler(p.handler, p.pc, restMetrics{})
@@ -751,7 +760,7 @@ func sigOf(kind, msg string) string {
 }
 
 func TestPipeline(t *testing.T) {
-	ev.Rule(chk, "rapid workloads over the whole pipeline made of real parts ((REST operations endpoint ->) DocumentHandler -> batch.Writer driven through the verif hook -> OperationHandler -> in-memory CAS -> recording ledger assigning time, non-monotone number, canonical and equivalent references -> Observer -> TxnProcessor -> operation store -> OperationProcessor -> didtransformer): 1-5 DIDs, 3-25 client operations (create / update / recover / deactivate with patch lists over all eight actions, all key types), drawn flush points (monitor / timeout ticks), maxOperationCount 1-4, operations submitted while an earlier one for the DID is still queued, signed anchoring windows (open, closed, and ending 0-3 ledger ticks after submission so that the flush point decides whether the operation lands inside, exactly at the end of or after its window), one or two protocol versions (second one with sha2-512 first, fewer patch actions, later genesis time), with and without an unpublished-operation store, with and without two method contexts on the transformers, one node in three with a label / domain for interim DIDs and / or an alias namespace (resolutions then ask by turns for the plain DID, the DID under the alias and - long-form only - the DID with the label as hint; the DID string of an answer may be any spelling that names the suffix under the namespace or alias); every result the node hands out stays held (last 16) and must not change while later requests are served; oracle: every stored operation carries the protocol version that was in force when it was accepted; after every flush and at the end every DID resolves (ResolveDocument) to the kit/refdoc + reference prediction over its accepted operations in anchoring order (document projection, commitments, deactivated, published flag and canonical id once anchored); create response == long-form resolution before anchoring == short-form resolution after anchoring (modulo the DID string); non-trivial = a DID with >= 3 applied operations including a recover or deactivate, or an operation submitted while another is queued, or a version switch")
+	ev.Rule(chk, "rapid workloads over the whole pipeline made of real parts ((REST operations endpoint ->) DocumentHandler -> batch.Writer driven through the verif hook -> OperationHandler -> in-memory CAS -> recording ledger assigning time, non-monotone number, canonical and equivalent references -> Observer -> TxnProcessor -> operation store -> OperationProcessor -> didtransformer): 1-5 DIDs, 3-25 client operations (create / update / recover / deactivate with patch lists over all eight actions, all key types), drawn flush points (monitor / timeout ticks), maxOperationCount 1-4, operations submitted while an earlier one for the DID is still queued, signed anchoring windows (open, closed, and ending 0-3 ledger ticks after submission so that the flush point decides whether the operation lands inside, exactly at the end of or after its window), one or two protocol versions (second one with sha2-512 first, fewer patch actions, later genesis time), with and without an unpublished-operation store (one submission in eight then meets a store that fails for that one request; the client retries with the same key), with and without two method contexts on the transformers, one node in three with a label / domain for interim DIDs and / or an alias namespace (resolutions then ask by turns for the plain DID, the DID under the alias and - long-form only - the DID with the label as hint; the DID string of an answer may be any spelling that names the suffix under the namespace or alias); every result the node hands out stays held (last 16) and must not change while later requests are served; oracle: every stored operation carries the protocol version that was in force when it was accepted; after every flush and at the end every DID resolves (ResolveDocument) to the kit/refdoc + reference prediction over its accepted operations in anchoring order (document projection, commitments, deactivated, published flag and canonical id once anchored); create response == long-form resolution before anchoring == short-form resolution after anchoring (modulo the DID string); non-trivial = a DID with >= 3 applied operations including a recover or deactivate, or an operation submitted while another is queued, or a version switch")
 	ev.Rapid(t, chk, 200, 1500, func(t *rapid.T) {
 		c := &Case{Max: uint(rapid.IntRange(1, 4).Draw(t, "max")), TwoVersions: rapid.Bool().Draw(t, "twoVersions"), Unpublished: rapid.Bool().Draw(t, "unpublishedStore"), MethodContexts: rapid.Bool().Draw(t, "methodContexts"), ViaREST: rapid.Bool().Draw(t, "viaRest")}
 		if rapid.IntRange(0, 2).Draw(t, "handlerNaming") == 0 {
@@ -853,6 +862,9 @@ func TestPipeline(t *testing.T) {
 					a.Consumes = asm.Commit(cl.rec, cl.code)
 				}
 				a.Request = s.Bytes()
+			}
+			if c.Unpublished && rapid.IntRange(0, 7).Draw(t, "unpublishedStoreFault") == 0 {
+				a.UnpubFault = true
 			}
 			c.Actions = append(c.Actions, a)
 			act := &c.Actions[len(c.Actions)-1]
